@@ -65,6 +65,9 @@ class AbstractMujocoEnv[
 
         data = state.sim_state.replace(ctrl=action)
         data, _ = lax.scan(step_once, data, None, length=self.frame_skip)
+        # As Gymnasium's ``do_simulation``: force-related quantities (``cfrc_ext``, ``cacc``)
+        # are only computed on request, so fill them in after stepping.
+        data = mjx.rne_postconstraint(self.model, data)
 
         return eqx.tree_at(
             lambda s: (s.sim_state, s.t), state, (data, state.t + self.dt)
